@@ -1186,6 +1186,11 @@ func (f *SQLFormatter) formatCreateView(stmt *ast.CreateViewStatement) error {
 	}
 	f.decreaseIndent()
 
+	if stmt.WithOption != "" {
+		f.writeNewline()
+		f.writeKeyword("WITH " + stmt.WithOption)
+	}
+
 	return nil
 }
 
